@@ -93,23 +93,25 @@ theorem replace_eq_spec (capsAt : Nat → Option Caps) (names : List (Bytes × N
 
 /-! ### `trim_line_terminator` and `is_at_unterminated_end` -/
 
-/-- Cutting the terminator either shortens the range, or leaves it when it does not end in the
-terminator byte. -/
-theorem trim_cases (t : LineTerm) (haystack : Bytes) (re : Nat) (_hre : re ≤ haystack.length) :
-    trimLineTerminator t haystack 0 re < re ∨
-    (trimLineTerminator t haystack 0 re = re ∧ t.isSuffix (haystack.take re) = false) := by
+/-- Cutting the terminator of the range `[rs, re)` either shortens the range (then the range was not empty), or
+leaves it when it does not end in the terminator byte. -/
+theorem trim_cases (t : LineTerm) (haystack : Bytes) (rs re : Nat) :
+    (trimLineTerminator t haystack rs re < re ∧ rs < re) ∨
+    (trimLineTerminator t haystack rs re = re ∧ t.isSuffix ((haystack.take re).drop rs) = false) := by
   unfold trimLineTerminator
-  by_cases hsuf : t.isSuffix ((haystack.take re).drop 0) = true
+  by_cases hsuf : t.isSuffix ((haystack.take re).drop rs) = true
   · left
     simp only [hsuf, ↓reduceIte]
-    have hre : 0 < re := by
-      cases re with
-      | zero => simp [LineTerm.isSuffix] at hsuf
-      | succ n => omega
+    have hre : rs < re := by
+      by_cases h : rs < re
+      · exact h
+      · have : (haystack.take re).drop rs = [] := by
+          apply List.drop_eq_nil_of_le; rw [List.length_take]; omega
+        rw [this] at hsuf; simp [LineTerm.isSuffix] at hsuf
+    refine ⟨?_, hre⟩
     split <;> omega
   · right
     simp only [hsuf, Bool.false_eq_true, ↓reduceIte, true_and]
-    simpa using hsuf
 
 theorem atEnd_of_unterminated (t : LineTerm) (haystack : Bytes) (rs re : Nat)
     (hrange : rs ≤ re ∧ re ≤ haystack.length) (hns : t.isSuffix (haystack.take re) = false) :
